@@ -20,6 +20,7 @@ namespace Srtla.SysDir
 open Srtla Srtla.Gen Srtla.Conn Srtla.Select Srtla.Rtt Srtla.Link Srtla.Sys Srtla.SysInv Scalar
 
 variable {F : Type} [Scalar F]
+variable {fa : List (Nat × Nat)}
 
 /-- Operations of the per-link set machine. -/
 inductive KOp where
@@ -183,12 +184,12 @@ theorem foldl_sends (q : List Int) (k : List Int) : (q.map KOp.send).foldl kstep
 
 /-- The keys after `Hk.fwdLink`, by the case table. -/
 theorem keys_fwdLink (l : FLink F) (pkt : Sys.Bytes) (seq : Option Nat) (now : Nat) (fn : List Nat) :
-    (Hk.fwdLink l pkt seq now fn).1.core.keys =
+    (Hk.fwdLink fa l pkt seq now fn).1.core.keys =
       (if (l.queue ++ [(pkt, seq, now)]).length < l.regime.batchSize then l.core.keys
        else if l.core.connId ∈ fn then []
        else (batchSeqs (l.queue ++ [(pkt, seq, now)])).foldl specRegister l.core.keys) ∧
     (¬ (l.queue ++ [(pkt, seq, now)]).length < l.regime.batchSize → l.core.connId ∈ fn →
-      (Hk.fwdLink l pkt seq now fn).2.2.count l.core.connId < fn.count l.core.connId) := by
+      (Hk.fwdLink fa l pkt seq now fn).2.2.count l.core.connId < fn.count l.core.connId) := by
   obtain ⟨hq1, -, hq3, -, -, -⟩ := queueDataPacket_spec l pkt seq now
   have hlen : (l.queue ++ [(pkt, seq, now)]).length = l.queue.length + 1 := by simp
   rw [hlen]
@@ -247,9 +248,9 @@ theorem client_keys_exact (s : Sys F) (now : Nat) (pkt : Sys.Bytes) (hnd : (ids 
     -- the common end: `fwdLink` on a record `m` that agrees with `l` on queue, core and regime
     have fin : ∀ (m : FLink F) (fn0 : List Nat), m.queue = l.queue → m.core = l.core → m.regime = l.regime →
         (l.core.connId ∈ fn0 ↔ l.core.connId ∈ s.failNext) → Hk.FnLe s.failNext fn0 →
-        Hk.FnLe (Hk.fwdLink m pkt (Codec.getSrtSequenceNumberS pkt) now fn0).2.2 (handleSrtPacket s pkt now).1.failNext →
+        Hk.FnLe (Hk.fwdLink s.failAfter m pkt (Codec.getSrtSequenceNumberS pkt) now fn0).2.2 (handleSrtPacket s pkt now).1.failNext →
         appendedClient s pkt now j = [clientItem pkt now] →
-        (Hk.fwdLink m pkt (Codec.getSrtSequenceNumberS pkt) now fn0).1.core.keys =
+        (Hk.fwdLink s.failAfter m pkt (Codec.getSrtSequenceNumberS pkt) now fn0).1.core.keys =
           (if (appendedClient s pkt now j).isEmpty = true then []
             else if (l.queue ++ appendedClient s pkt now j).length < l.regime.batchSize then []
             else if l.core.connId ∈ s.failNext then [KOp.reset]
